@@ -73,9 +73,9 @@ class Sim:
             self.emit("K.%d" % sid)
         return len(self.conns) - 1
 
-    def send(self, c, name, cl=0, noauto=False):
+    def send(self, c, name, cl=0, noauto=False, signal=False):
         s = self.next_serial(c)
-        self.emit("%s.%d.%d.%s.%d" % ("U" if noauto else "A", c, s, name, cl))
+        self.emit("%s.%d.%d.%s.%d" % ("U" if noauto else ("B" if signal else "A"), c, s, name, cl))
         if self.owner(name) is None and not noauto:
             self.after_activate(self.activate(name, True, cl))
 
@@ -210,7 +210,7 @@ def gen_history(rnd, flavour="plain", length=None):
         elif r < 0.36:
             c = rnd.choice(live)
             cl = rnd.choice((0, 0, 0, 0, 0, 1, 2, 2, 3, 3))
-            s.send(c, rnd.choice(names), cl, noauto=rnd.random() < 0.07)
+            s.send(c, rnd.choice(names), cl, noauto=rnd.random() < 0.07, signal=rnd.random() < 0.15)
         elif r < 0.50:
             s.start(rnd.choice(live), rnd.choice(names))
         elif r < 0.60:
@@ -275,7 +275,7 @@ def gen_burst(rnd):
         r = rnd.random()
         n = rnd.choice(targets)
         if r < 0.62:
-            s.send(rnd.choice(live), n, rnd.choice((0, 0, 0, 0, 2, 2, 3, 1)))
+            s.send(rnd.choice(live), n, rnd.choice((0, 0, 0, 0, 2, 2, 3, 1)), signal=rnd.random() < 0.2)
         elif r < 0.85:
             s.start(rnd.choice(live), n)
         elif r < 0.93:
@@ -351,6 +351,8 @@ def scenarios():
     bad = [("w1", 1, 0), ("w2", 2, 2), ("w3", 3, 1)]
     S.append(("bad-exec", 50, bad, False, "C C A.0.1.w1.0 S.1.1.w1 A.0.2.w3.0 A.1.2.w2.0 F.1 S.0.3.w3 S.0.4.w2 F.2".split()))
     # NO_AUTO_START while an activation is pending; unknown names; killed by a signal
+    # directed signals auto-start too and are held and replayed like method calls
+    S.append(("signals", 50, two, False, "C C B.0.1.w1.0 A.1.1.w1.0 B.0.2.w1.2 K.0 R.2.1.1 B.1.2.w1.0 B.0.3.w2.1 B.0.4.w4.0".split()))
     S.append(("misc", 50, two, False, "C A.0.1.w1.0 U.0.2.w1.0 A.0.3.w4.0 S.0.4.w4 A.0.5.u7.0 G.0 A.0.6.w1.0".split()))
     # timeouts: everybody waiting is told once; a process that connected but never took the name is killed
     S.append(("timeout", 50, two, True, "C C A.0.1.w1.0 S.1.1.w1 A.1.2.w2.0 K.0 R.2.1.2 T D.2 A.0.2.w1.0 S.1.3.w2".split()))
